@@ -674,13 +674,18 @@ func checkGobReadersEveryExit(w *World, c *Check, t *tables, rule string) {
 						}
 					}
 					if bo, isB := iff.Cond.(*ssa.BinOp); isB {
-						if inner, isLen := lenOperand(bo.X); isLen {
+						op, l, r := bo.Op, bo.X, bo.Y
+						if _, isLen := lenOperand(r); isLen {
+							l, r = r, l
+							op = flipOp(op)
+						}
+						if inner, isLen := lenOperand(l); isLen {
 							if _, isP := inner.(*ssa.Parameter); isP {
-								if k, isC := constInt(bo.Y); isC && k == 0 {
-									switch bo.Op {
-									case token.EQL, token.LEQ:
-										skip = 0
-									case token.NEQ, token.GTR:
+								if k, isC := constInt(r); isC {
+									switch {
+									case (op == token.EQL || op == token.LEQ) && k == 0, op == token.LSS && k == 1:
+										skip = 0 // the argument is empty on the true side
+									case (op == token.NEQ || op == token.GTR) && k == 0, op == token.GEQ && k == 1:
 										skip = 1
 									}
 								}
